@@ -1,6 +1,7 @@
 import SnaxVerif.Lemmas.PostInduct
 import SnaxVerif.Props.C03
 import SnaxVerif.Lemmas.Matcher
+import SnaxVerif.Lemmas.First
 import SnaxVerif.Lemmas.CheckSpecs
 /-!
 # C16 — returned schedules fit the accelerator template
@@ -156,6 +157,46 @@ theorem C16_autoflow (sizes : List Nat) (tmpl : Template) (fuel : Nat) (s r : Sc
     intro j hj1 hjn
     obtain ⟨h1, h2, h3, h4⟩ := C16_post_real true (some sizes) tmpl fuel (canonicalize s) rs (WF_maskSched hwf) hb' r hmem j hj1 hjn
     exact ⟨h1, h2 rfl, h3 sizes rfl, h4⟩
+
+/-- Post-conditions of the lazily computed first result (`next(scheduler_backtrack(..))`), as `C16_post`. -/
+theorem C16_first_post (mtch : Template → Schedule → Except Err Bool) (checks : List (Template → Schedule → Bool))
+    (tmpl : Template) (fuel : Nat) (s r : Schedule)
+    (hwf : WF s) (hm : OpsOnly mtch) (hch : ∀ ch ∈ checks, OpsOnly ch)
+    (h : backtrackFirst mtch checks tmpl fuel s 1 = .ok (some r)) :
+    ∀ j, 1 ≤ j → j ≤ r.n →
+      mtch (tInnerRaw j tmpl) (innerRaw j r) = .ok true ∧
+      (∀ ch ∈ checks, ch (tInnerRaw j tmpl) (innerRaw j r) = true) ∧
+      (templateBound tmpl j ≠ 0 → r.bounds.getD (r.n - j) 0 ≤ templateBound tmpl j) := by
+  have key := backtrackFirst_induct (mtch := mtch) (checks := checks) (tmpl := tmpl)
+    (PostInv mtch checks tmpl)
+    (fun r => ∀ j, 1 ≤ j → j ≤ r.n → PostAt mtch checks tmpl j (innerRaw j r))
+    (fun k s' hI hk j hj1 hjn => hI.2 j hj1 (by omega) hjn)
+    (fun k s' s1 cand hI hk hstep => postInv_step hm hch k s' s1 cand hI hk hstep)
+    fuel s 1 r ⟨hwf, fun j h1 h2 _ => by omega⟩ h
+  intro j hj1 hjn
+  obtain ⟨h1, h2, h3⟩ := key j hj1 hjn
+  refine ⟨h1, h2, fun htb => ?_⟩
+  have := h3 htb
+  rwa [show (innerRaw j r).bounds = lastN j r.bounds from rfl, lastN_head] at this
+
+/-- the schedule the `dart-scheduler` pass emits for an operation (`autoflowFirst`) fits the template at every
+level and satisfies both requested constraints, WITH THE OPERATION'S ELEMENT SIZES ON EVERY CANDIDATE. -/
+theorem C16_autoflow_first (sizes : List Nat) (tmpl : Template) (fuel : Nat) (s r : Schedule) (hwf : WF s)
+    (h : autoflowFirst sizes tmpl fuel s = .ok (some r)) :
+    ∀ j, 1 ≤ j → j ≤ r.n →
+      matchesQ (tInnerRaw j tmpl) (innerRaw j r) = .ok true ∧
+      isPureOutputStationary (tInnerRaw j tmpl) (innerRaw j r) = true ∧
+      isMemoryFlexibleEnough sizes (tInnerRaw j tmpl) (innerRaw j r) = true ∧
+      (templateBound tmpl j ≠ 0 → r.bounds.getD (r.n - j) 0 ≤ templateBound tmpl j) := by
+  intro j hj1 hjn
+  have hch : ∀ ch ∈ [isPureOutputStationary, isMemoryFlexibleEnough sizes], OpsOnly ch := by
+    intro ch hmem
+    simp only [List.mem_cons, List.not_mem_nil, or_false] at hmem
+    rcases hmem with rfl | rfl
+    · exact isPureOutputStationary_opsOnly
+    · exact isMemoryFlexibleEnough_opsOnly _
+  obtain ⟨h1, h2, h3⟩ := C16_first_post matchesQ _ tmpl fuel (canonicalize s) r (WF_maskSched hwf) matchesQ_opsOnly hch h j hj1 hjn
+  exact ⟨h1, h2 _ (by simp), h2 _ (by simp), h3⟩
 
 /-- **Soundness of the exact matcher**: whenever `matchesQ` accepts, template and schedule have the same
 number of operands, the schedule has at least the template's dims, and for every operand the template's
